@@ -420,4 +420,87 @@ theorem toAst_img (hg : GlobalsJs) (sc : Scope) (hs : ScImg sc) :
 
 end
 
+/-! ## scopes -/
+
+theorem frameSet_mem : ∀ (f : Frame) (k v : Bytes) (kv : Bytes × Bytes), kv ∈ frameSet f k v → kv ∈ f ∨ kv = (k, v)
+  | [], k, v, kv, h => by simp only [frameSet, List.mem_singleton] at h; exact Or.inr h
+  | (k', v') :: r, k, v, kv, h => by
+    simp only [frameSet] at h
+    split at h
+    · rcases List.mem_cons.mp h with h | h
+      · exact Or.inr h
+      · exact Or.inl (List.mem_cons_of_mem _ h)
+    · rcases List.mem_cons.mp h with h | h
+      · exact Or.inl (h ▸ List.mem_cons_self)
+      · rcases frameSet_mem r k v kv h with h | h
+        · exact Or.inl (List.mem_cons_of_mem _ h)
+        · exact Or.inr h
+
+theorem frame_set_names {f : Frame} (hf : ∀ kv ∈ f, JsName kv.2) (k v : Bytes) (hv : JsName v) :
+    ∀ kv ∈ frameSet f k v, JsName kv.2 := by
+  intro kv h
+  rcases frameSet_mem f k v kv h with h | h
+  · exact hf kv h
+  · subst h; exact hv
+
+theorem ScImg.push {sc : Scope} (h : ScImg sc) : ScImg sc.push := by
+  intro f hf
+  simp only [Scope.push, List.mem_cons] at hf
+  rcases hf with rfl | hf
+  · intro kv hkv; cases hkv
+  · exact h f hf
+
+theorem ScImg.pop {sc : Scope} (h : ScImg sc) : ScImg sc.pop := by
+  intro f hf
+  exact h f (List.mem_of_mem_tail hf)
+
+theorem setTop_names : ∀ (st : List Frame) (k v : Bytes), (∀ f ∈ st, ∀ kv ∈ f, JsName kv.2) → JsName v →
+    ∀ f ∈ Scope.setTop st k v, ∀ kv ∈ f, JsName kv.2
+  | [], _, _, _, _, f, hf => by simp [Scope.setTop] at hf
+  | f0 :: r, k, v, hs, hv, f, hf => by
+    simp only [Scope.setTop, List.mem_cons] at hf
+    rcases hf with rfl | hf
+    · exact frame_set_names (hs f0 (by simp)) k v hv
+    · exact hs f (by simp [hf])
+
+theorem ScImg.bind {sc : Scope} (h : ScImg sc) (x g : Bytes) (hg : JsName g) : ScImg (sc.bind x g) :=
+  setTop_names sc.stack x g h hg
+
+theorem ScImg.makevar {sc : Scope} (h : ScImg sc) (x : Bytes) (hx : JsIdent x) :
+    JsName (sc.makevar x).1 ∧ ScImg (sc.makevar x).2 :=
+  ⟨jsname_jsName x [] _ hx (fun _ h => by cases h), setTop_names sc.stack x _ h (jsname_jsName x [] _ hx (fun _ h => by cases h))⟩
+
+theorem ScImg.genname {sc : Scope} (h : ScImg sc) (x : Bytes) (hx : JsIdent x) :
+    JsName (sc.genname x).1 ∧ ScImg (sc.genname x).2 :=
+  ⟨jsname_jsName x [] _ hx (fun _ h => by cases h), h⟩
+
+theorem ScImg.pushForEach {sc : Scope} (h : ScImg sc) (v : Bytes) (hv : JsIdent v) :
+    JsName (sc.pushForEach v).1.1 ∧ JsName (sc.pushForEach v).1.2.1 ∧ JsName (sc.pushForEach v).1.2.2.1 ∧
+      JsName (sc.pushForEach v).1.2.2.2 ∧ ScImg (sc.pushForEach v).2 := by
+  have n0 := jsname_jsName v [] (sc.n + 1) hv (fun _ h => by cases h)
+  have n1 := jsname_jsName v b!"List" (sc.n + 1) hv (by decide)
+  have n2 := jsname_jsName v b!"Limit" (sc.n + 1) hv (by decide)
+  have n3 := jsname_jsName v b!"Index" (sc.n + 1) hv (by decide)
+  refine ⟨n0, n1, n2, n3, ?_⟩
+  intro f hf
+  simp only [Scope.pushForEach, List.mem_cons] at hf
+  rcases hf with rfl | hf
+  · exact frame_set_names (frame_set_names (frame_set_names (fun _ h => by cases h) _ _ n0) _ _ n2) _ _ n3
+  · exact h f hf
+
+theorem ScImg.pushForRange {sc : Scope} (h : ScImg sc) (v : Bytes) (hv : JsIdent v) :
+    JsName (sc.pushForRange v).1.1 ∧ JsName (sc.pushForRange v).1.2.1 ∧ JsName (sc.pushForRange v).1.2.2.1 ∧
+      JsName (sc.pushForRange v).1.2.2.2 ∧ ScImg (sc.pushForRange v).2 := by
+  have n0 := jsname_jsName v [] (sc.n + 1) hv (fun _ h => by cases h)
+  have n1 := jsname_jsName v b!"Limit" (sc.n + 1) hv (by decide)
+  have n2 := jsname_jsName v b!"Step" (sc.n + 1) hv (by decide)
+  have n3 := jsname_jsName v b!"Index" (sc.n + 1) hv (by decide)
+  refine ⟨n0, n1, n2, n3, ?_⟩
+  intro f hf
+  simp only [Scope.pushForRange, List.mem_cons] at hf
+  rcases hf with rfl | hf
+  · exact frame_set_names (frame_set_names (frame_set_names (frame_set_names (frame_set_names (fun _ h => by cases h) _ _ n0) _ _ n1) _ _ n2)
+      _ _ n3) _ _ n0
+  · exact h f hf
+
 end SoyVerif.Props.C14d
